@@ -476,7 +476,7 @@ def run(chk):
         chk.advisory('C05.K', check_object_keys, chk)
     else:
         chk.guard('C05.K', check_object_keys, chk)
-    try:
-        chk.guard('C05.L', check_failure_values, chk)
-    except ImportError:
-        chk.note('C05.L not available (c15 module missing)')
+    from . import c15
+    chk.rule('C15.R', 'shared with C15: every array / object / string function evaluated on invalid calls (wrong type in each position, missing, surplus) returns its documented failure value')
+    ref_ok = chk.guard('C15.R', c15.check_reference_sim, chk)
+    chk.readback(ref_ok)('C05.L', check_failure_values, chk)
